@@ -7,11 +7,11 @@ W=/tmp/seedchk_$SID
 cd /repo && git worktree add -q --detach $W HEAD || exit 9
 cd $W
 cp $D/demo.py demo.py
-PANOPTICA_CITATION_REMINDER=false timeout 600 /venv/bin/python demo.py >/tmp/seed_clean.txt 2>&1; c=$?
+PANOPTICA_CITATION_REMINDER=false timeout 600 /venv/bin/python demo.py >/tmp/seed_clean_$SID.txt 2>&1; c=$?
 git apply $D/patch.diff || { echo "PATCH FAILS TO APPLY"; cd /repo; git worktree remove --force $W; exit 9; }
-PANOPTICA_CITATION_REMINDER=false timeout 600 /venv/bin/python demo.py >/tmp/seed_mut.txt 2>&1; m=$?
-timeout 1200 /venv/bin/python -m pytest -q -p no:cacheprovider --timeout=900 unit_tests 2>&1 | tail -1 > /tmp/seed_tests.txt
-t=$(cat /tmp/seed_tests.txt)
+PANOPTICA_CITATION_REMINDER=false timeout 600 /venv/bin/python demo.py >/tmp/seed_mut_$SID.txt 2>&1; m=$?
+timeout 1200 /venv/bin/python -m pytest -q -p no:cacheprovider --timeout=900 unit_tests 2>&1 | tail -1 > /tmp/seed_tests_$SID.txt
+t=$(cat /tmp/seed_tests_$SID.txt)
 cd /repo && git worktree remove --force $W
 python3 - <<PY
 import json
